@@ -26,6 +26,9 @@ def run(check: Check, repo: Repo, tier: str) -> None:
     D.introspect_matrix(check, repo)
     D.enum_tables(check, repo)
     D.client_builds_from_data(check, repo)
+    D.cross_schema_by_name(check, repo)
+    D.default_verbatim(check, repo)
+    L.number_parts(check, repo)
     from rules import coercion_rules as K2
     K2.field_requiredness(check, repo)
     L.ws_agree(check, repo, ['language.block_string', 'language.printer'])
